@@ -91,6 +91,14 @@ theorem roundtrip_file (env : Env) (d0 : Disk) (pt : SimplePT) (ms cs : List Ten
     · rw [file_getCap_lt env pt ms cs g k hk, List.getElem?_eq_getElem hk]
     · rw [file_getCap_ge env pt ms cs g k (by omega), List.getElem?_eq_none (by omega)]
 
+/-- The `'simple'` import copies what is stored: the MPO tensors are read with
+    `transformed=False` (the new object carries the transforms itself, so reading them
+    transformed would rotate them twice) and the cap tensors are copied, not recomputed.
+    This is what `simpleOfFile` models; `roundtrip_simple` below is about that copy. -/
+theorem import_copies_raw :
+    flags.importMpoTransformed = false ∧ flags.importCopiesCaps = true := by
+  decide
+
 /-- **Round trip, in-memory import.**  `import_process_tensor(…, 'simple')` of the exported
     file returns, without warning, an object equal to the original in every field: metadata,
     MPO tensors, cap tensors, and `get_initial_tensor() = None`. -/
